@@ -130,7 +130,8 @@ func (t *Trie) getWithPath(curr Node, path []byte, strict bool) (Node, Node, []b
 				return nil, nil, nil, err
 			}
 			n.next = r
-			return curr, res, append(n.key, prefix...), err
+			// Don't append to n.key itself, it can share its underlying array with other keys.
+			return curr, res, slices.Concat(n.key, prefix), err
 		}
 		if !strict && bytes.HasPrefix(n.key, path) {
 			// path is shorter than prefix, stop seeking
